@@ -17,7 +17,8 @@ EventOk(e) ==
   /\ SV!IsSemVer(e.semver) /\ AllAscii(e.semver)
   /\ PG!GreedyAccepts(e.pep440) /\ PG!NormalOf(e.pep440) = e.pep440
 Next == /\ l <= Len(Rec)
-        /\ IF EventOk(Rec[l]) THEN TRUE ELSE PrintT("MISMATCH " \o ToString(l))
+        /\ IF ~InstantsOk(Rec[l].st) THEN PrintT("MISMATCH " \o ToString(l) \o " recorder-civil-fields")
+           ELSE IF EventOk(Rec[l]) THEN TRUE ELSE PrintT("MISMATCH " \o ToString(l))
         /\ l' = l + 1
 Spec == Init /\ [][Next]_l
 AllConsumed == IF TLCGet("stats").diameter = Len(Rec) + 1 THEN TRUE
